@@ -168,6 +168,19 @@ def _rebind(orig, new):
         for an, av in list(vars(m).items()):
             if av is orig:
                 setattr(m, an, new)
+            # references bound as default arguments or partial keywords follow too: otherwise calls through them bypass the contract
+            # and identity relations between the module attribute and the default (f is g) differ from the uninstrumented code
+            d = getattr(av, '__defaults__', None)
+            if d and any(x is orig for x in d):
+                try:
+                    av.__defaults__ = tuple(new if x is orig else x for x in d)
+                except (AttributeError, TypeError):
+                    pass
+            kw = getattr(av, 'keywords', None)
+            if isinstance(kw, dict):
+                for k_, v_ in list(kw.items()):
+                    if v_ is orig:
+                        kw[k_] = new
 
 
 def install(ctx):
